@@ -39,9 +39,12 @@ type SchemaValidator struct {
 //
 // When no pre-parsed *spec.Schema structure is provided, it uses a JSON schema as default. See example.
 func AgainstSchema(schema *spec.Schema, data interface{}, formats strfmt.Registry, options ...Option) error {
-	res := NewSchemaValidator(schema, nil, "", formats,
-		append(options, WithRecycleValidators(true), withRecycleResults(true))...,
-	).Validate(data)
+	// not append(options, ...): the slice behind a variadic parameter is the caller's
+	opts := make([]Option, 0, len(options)+2)
+	opts = append(opts, options...)
+	opts = append(opts, WithRecycleValidators(true), withRecycleResults(true))
+
+	res := NewSchemaValidator(schema, nil, "", formats, opts...).Validate(data)
 	defer func() {
 		pools.poolOfResults.RedeemResult(res)
 	}()
